@@ -1448,12 +1448,9 @@ func RewriteContainsSelf(rewrite *openfgav1.Userset) bool {
 func (t *TypeSystem) hasCycle(
 	objectType, relationName string,
 	rewrite *openfgav1.Userset,
-	visited map[string]struct{},
+	onPath map[string]struct{},
+	done map[string]struct{},
 ) (bool, error) {
-	visited[fmt.Sprintf("%s#%s", objectType, relationName)] = struct{}{}
-
-	visitedCopy := maps.Clone(visited)
-
 	var children []*openfgav1.Userset
 
 	switch rw := rewrite.GetUserset().(type) {
@@ -1461,9 +1458,16 @@ func (t *TypeSystem) hasCycle(
 		return false, nil
 	case *openfgav1.Userset_ComputedUserset:
 		rewrittenRelation := rw.ComputedUserset.GetRelation()
+		key := fmt.Sprintf("%s#%s", objectType, rewrittenRelation)
 
-		if _, ok := visited[fmt.Sprintf("%s#%s", objectType, rewrittenRelation)]; ok {
+		if _, ok := onPath[key]; ok {
 			return true, nil
+		}
+
+		// a relation that was fully explored without meeting a cycle cannot contribute one later:
+		// without this memo every path of a DAG-shaped rewrite graph is enumerated (exponential).
+		if _, ok := done[key]; ok {
+			return false, nil
 		}
 
 		rewrittenRewrite, err := t.GetRelation(objectType, rewrittenRelation)
@@ -1471,7 +1475,13 @@ func (t *TypeSystem) hasCycle(
 			return false, err
 		}
 
-		return t.hasCycle(objectType, rewrittenRelation, rewrittenRewrite.GetRewrite(), visitedCopy)
+		onPath[key] = struct{}{}
+		hasCycle, err := t.hasCycle(objectType, rewrittenRelation, rewrittenRewrite.GetRewrite(), onPath, done)
+		delete(onPath, key)
+		if err == nil && !hasCycle {
+			done[key] = struct{}{}
+		}
+		return hasCycle, err
 	case *openfgav1.Userset_Union:
 		children = append(children, rw.Union.GetChild()...)
 	case *openfgav1.Userset_Intersection:
@@ -1481,7 +1491,7 @@ func (t *TypeSystem) hasCycle(
 	}
 
 	for _, child := range children {
-		hasCycle, err := t.hasCycle(objectType, relationName, child, visitedCopy)
+		hasCycle, err := t.hasCycle(objectType, relationName, child, onPath, done)
 		if err != nil {
 			return false, err
 		}
@@ -1497,14 +1507,14 @@ func (t *TypeSystem) hasCycle(
 // HasCycle runs a cycle detection test on the provided `objectType#relation` to see if the relation
 // defines a rewrite rule that is self-referencing in any way (through computed relationships).
 func (t *TypeSystem) HasCycle(objectType, relationName string) (bool, error) {
-	visited := map[string]struct{}{}
+	onPath := map[string]struct{}{fmt.Sprintf("%s#%s", objectType, relationName): {}}
 
 	relation, err := t.GetRelation(objectType, relationName)
 	if err != nil {
 		return false, err
 	}
 
-	return t.hasCycle(objectType, relationName, relation.GetRewrite(), visited)
+	return t.hasCycle(objectType, relationName, relation.GetRewrite(), onPath, map[string]struct{}{})
 }
 
 // IsTuplesetRelation returns a boolean indicating if the provided relation is defined under a
